@@ -88,6 +88,14 @@ func (e *Engine) externWrites(f *ssa.Function) *WriteSet {
 		return w
 	case p == "bytes" && f.Name() == "NewReader":
 		return w
+	case (p == "bytes" && f.Signature.Recv() != nil && strings.Contains(f.Signature.Recv().Type().String(), "Buffer")) ||
+		(p == "strings" && f.Signature.Recv() != nil && strings.Contains(f.Signature.Recv().Type().String(), "Builder")):
+		// methods of bytes.Buffer / strings.Builder mutate only the receiver's own (unmodelled) state
+		e.abstract("bytes.Buffer / strings.Builder methods write only their receiver (opaque, trusted)")
+		return w
+	case p == "encoding/binary" && f.Name() == "Write":
+		e.abstract("encoding/binary.Write writes only to its io.Writer argument (opaque, trusted)")
+		return w
 	case p == "encoding/binary" && f.Name() == "Read":
 		// consumes from the reader; the destination pointer is accounted for at the call site (address passed)
 		e.ghostKeys()
@@ -211,6 +219,13 @@ func (e *Engine) callValue(s *State, fr *Frame, dst *ssa.Call, cc *ssa.CallCommo
 				s.addObligation("safety", name, "", site.Pos(), TFalse, "call of nil function value")
 				s.dead = true
 				return nil, true
+			}
+		}
+		if key, ok := fieldCallKey(cc.Value); ok {
+			if c := e.cs.Funcs[key]; c != nil {
+				rv := e.modularCall(s, fr, c, key, cc.Signature(), args, site, anchor, nil)
+				setResult(rv)
+				return nil, false
 			}
 		}
 		rv := e.unknownCall(s, fr, "func value "+cc.Value.Name()+" in "+fr.fn.Name(), cc.Signature(), false, site)
@@ -480,6 +495,16 @@ func (e *Engine) modularCall(s *State, fr *Frame, c *FuncContract, key string, s
 	for _, en := range c.Ensures {
 		t, err := e.evalBool(env, en.Expr)
 		if err != nil {
+			// postconditions phrased over the callee's own ghost variables are not visible to callers
+			ghostRef := false
+			for _, g := range c.Ghosts {
+				if strings.Contains(err.Error(), "\""+g.Name+"\"") {
+					ghostRef = true
+				}
+			}
+			if ghostRef {
+				continue
+			}
 			e.bail("ensures of %s %q: %v", shortKey(key), en.Src, err)
 		}
 		s.assume(t)
@@ -703,6 +728,9 @@ func (e *Engine) applyAts(s *State, fr *Frame, anchor, when string, cc *ssa.Call
 				e.bail("at %s assume %q: %v", anchor, at.Clause.Src, err)
 			}
 			s.assume(t)
+		case "stop":
+			// the rest of the function is outside the clauses under proof on this root
+			s.dead = true
 		case "set":
 			env := e.mkEnv(s, fr, vars, vtypes)
 			tv, err := e.eval(env, at.Clause.Expr)
